@@ -14,12 +14,14 @@ Families (see META["rule"]):
               module/class level state of the pdfminer package, to closure
   tree        every history of length 2 (quick) / 3 (thorough), no dedup
   interleave  every interleaving of next() on the page iterators of every document pair
+  abort       calls that die in the middle of the library (malformed indirect array elements), then the healthy twin
   api         one PDFDocument/manager/interpreter/device reused for every ordered pair (triple) of API calls
   idorder     all k-subsets of a 3x3 grid of equidistant text boxes, id() order ascending vs descending
 """
 from __future__ import annotations
 
 import hashlib
+from fractions import Fraction
 import io
 import itertools
 import os
@@ -57,14 +59,14 @@ META = {
     ),
     "bound": {
         "quick": "pool of 12 colliding documents (222 operations); bfs over the 72 whole-document operations to closure (cap depth 8); all histories of length 2 "
-                 "whose first call is a whole-document call with caching on and whose second is any operation except single pages with caching off (36 x 148); every whole-document operation after a document that interns 34000 distinct names; API objects: for each of 15 documents (pool, a navigation document with page labels/outlines/destinations, two encrypted ones) x caching, one PDFDocument + resource manager + interpreters + aggregator + TextConverter reused for every ordered pair of calls from {get_page_labels, create_pages, two interleaved create_pages, get_outlines, get_dest x5, layout of all pages, text of all pages}, each answer compared with the answer on fresh objects, and layout/text with extract_pages/extract_text; encrypted documents (RC4-40, RC4-128, V4/V2, AESV2, AESV3 x 2 file keys, same plaintext and object numbers): every ordered pair A then B x {text, pages, xml; text with caching off}, plus interleaved iterators of the two keys of each family; all 20 interleavings of the 3+3 "
+                 "whose first call is a whole-document call with caching on and whose second is any operation except single pages with caching off (36 x 148); every whole-document operation after a document that interns 34000 distinct names; aborted calls: 7 documents in which an indirect array element of a font or form (FontBBox, Widths, FontMatrix, BBox, Matrix; Type 3 and Type 1) is a malformed object, so that an exception escapes from the middle of the library, each x {text, pages, xml} x caching, followed by all 18 operations on their healthy twin with the same object numbers (and by the pool's whole-document operations after the first); API objects: for each of 15 documents (pool, a navigation document with page labels/outlines/destinations, two encrypted ones) x caching, one PDFDocument + resource manager + interpreters + aggregator + TextConverter reused for every ordered pair of calls from {get_page_labels, create_pages, two interleaved create_pages, get_outlines, get_dest x5, layout of all pages, text of all pages}, each answer compared with the answer on fresh objects, and layout/text with extract_pages/extract_text; encrypted documents (RC4-40, RC4-128, V4/V2, AESV2, AESV3 x 2 file keys, same plaintext and object numbers): every ordered pair A then B x {text, pages, xml; text with caching off}, plus interleaved iterators of the two keys of each family; all 20 interleavings of the 3+3 "
                  "next() calls of every document pair incl. a document with itself (78 pairs; caching on, for a document with itself also off/off and on/off); "
                  "all 3- and 4-subsets of a 3x3 grid x 2 boxes_flow",
-        "thorough": "same pool; bfs over all 222 operations to closure; the 34000-names prefix as quick; encrypted documents: all ordered triples (text) in addition to the pairs; API objects: all ordered triples of calls; all histories of length 3 over the 36 whole-document calls followed by "
+        "thorough": "same pool; bfs over all 222 operations to closure; the 34000-names prefix as quick; encrypted documents: all ordered triples (text) in addition to the pairs; API objects: all ordered triples of calls; aborted calls: also two different aborted documents in a row, and the pool operations after every one; all histories of length 3 over the 36 whole-document calls followed by "
                     "any of the 222 operations at depth 2 and the 36 at depth 3; interleavings as quick; 3-,4-,5-subsets of the grid x 4 boxes_flow",
     },
     "assumptions": [
-        "process-wide state = module globals and class attributes of the pdfminer package (digest walks all of them generically); "
+        "process-wide state = module globals, class attributes and function-held mutable values (default arguments, function attributes, lru caches, closure cells) of the pdfminer package (digest walks all of them generically); "
         "state kept in other packages (logging, charset_normalizer, cryptography) is not part of the digest",
         "the PostScript symbol tables are abstracted to 'consistent interning' (every entry maps its name to a symbol of that "
         "name and import-time symbols keep their identity), not to their membership: interned names only ever grow",
@@ -336,6 +338,9 @@ def build_pool() -> dict:
     pool["bignames"] = _build_bignames()
     pool.update(_build_crypt())
     pool["nav"] = _build_nav()
+    pool["twin"] = _build_abort()
+    for site in ABORT_SITES:
+        pool["abort-" + site] = _build_abort(site)
     # -- distance ties between text boxes
     f = _font("FontA", N("WinAnsiEncoding"), fixed=True)
     pool["ties"] = grid_doc([0, 2, 4, 6, 8], font=f, second=[1, 3, 5, 7])
@@ -491,6 +496,46 @@ def _build_nav():
         d.set(p, {"Type": N("Page"), "Parent": pages, "Contents": conts[i], **({"Rotate": 90} if i == 1 else {})})
     info = d.add({"Title": b"nav"})
     return d.write(cat, info=info)
+
+
+# documents that make an exception escape from the middle of a library call, and their healthy twin (same object numbers)
+ABORT_SITES = ["FontBBox", "Widths", "FontMatrix", "FormBBox", "FormMatrix", "Type1Widths", "Type1FontBBox"]
+
+
+def _build_abort(site=None) -> bytes:
+    """Type 3 and Type 1 fonts and a form whose arrays (and array elements) are indirect objects.  With ``site`` the indirect
+    object of that site holds a malformed dictionary: resolving it raises PSSyntaxError, which no layer catches."""
+    from mc.pdfgen import Raw
+
+    broken = Raw(b"<< /broken >>")
+    d = Doc()
+    cat, pages, p1, p2 = d.reserve(), d.reserve(), d.reserve(), d.reserve()
+    bbox_el = d.add(broken if site == "FontBBox" else 1000)
+    bbox = d.add([-100, -250, bbox_el, 900])
+    w_el = d.add(broken if site == "Widths" else 640)
+    fm_el = d.add(broken if site == "FontMatrix" else Fraction(1, 1000))
+    fmat = d.add([fm_el, 0, 0, Fraction(1, 1000), 0, 0])
+    glyph = d.add(Stream({}, b"600 0 0 -250 600 900 d1 0 0 600 700 re f"))
+    t3 = d.add({"Type": N("Font"), "Subtype": N("Type3"), "Name": N("Demo"), "FontBBox": bbox, "FontMatrix": fmat,
+                "CharProcs": {"a": glyph}, "Encoding": N("WinAnsiEncoding"), "FirstChar": 97, "LastChar": 99, "Widths": [600, w_el, 620]})
+    t1w = d.add(broken if site == "Type1Widths" else 510)
+    t1b = d.add(broken if site == "Type1FontBBox" else -200)
+    t1 = _font("FontA", N("WinAnsiEncoding"))
+    t1["Widths"] = [t1w] + t1["Widths"][1:]
+    t1["FontDescriptor"]["FontBBox"] = [0, t1b, 1000, 800]
+    t1 = d.add(t1)
+    fb_el = d.add(broken if site == "FormBBox" else 200)
+    fx_el = d.add(broken if site == "FormMatrix" else 30)
+    form = d.add(Stream({"Type": N("XObject"), "Subtype": N("Form"), "BBox": [0, 0, fb_el, 100], "Matrix": [1, 0, 0, 1, fx_el, 5],
+                         "Resources": {"Font": {"F1": t1}}}, _text("F1", 9, 5, 5, b"form")))
+    s1 = d.add(Stream({}, _text("F3", 20, 30, 620, b"abc") + _text("F1", 12, 30, 560, b" !\"#") + b"/Fm0 Do\n"))
+    s2 = d.add(Stream({}, _text("F1", 12, 30, 620, b"two") + _text("F3", 10, 30, 560, b"cab")))
+    res = {"Font": {"F3": t3, "F1": t1}, "XObject": {"Fm0": form}}
+    d.set(cat, {"Type": N("Catalog"), "Pages": pages})
+    d.set(pages, {"Type": N("Pages"), "Kids": [p1, p2], "Count": 2, "MediaBox": [0, 0, 612, 792]})
+    d.set(p1, {"Type": N("Page"), "Parent": pages, "Resources": res, "Contents": s1})
+    d.set(p2, {"Type": N("Page"), "Parent": pages, "Resources": res, "Contents": s2})
+    return d.write(cat)
 
 
 # encrypted documents: every handler family x two different file keys, same plaintext, same object numbers
@@ -836,10 +881,45 @@ def _digest_value(v, seen, depth=0) -> bytes:
     return type(v).__name__.encode()
 
 
+def _func_state(f, seen_funcs) -> bytes:
+    """Mutable state a function object carries between calls: default argument values, keyword defaults, its own attributes
+    (functools caches included) and closure cells holding containers."""
+    import types
+
+    f = getattr(f, "__func__", f)
+    w = getattr(f, "__wrapped__", None)
+    out = b""
+    if hasattr(f, "cache_info"):
+        try:
+            out += repr(tuple(f.cache_info())).encode()
+        except Exception:  # noqa
+            pass
+    if w is not None:
+        f = w
+    if not isinstance(f, types.FunctionType) or id(f) in seen_funcs:
+        return out
+    seen_funcs.add(id(f))
+    vals = list(f.__defaults__ or ()) + sorted((f.__kwdefaults__ or {}).items()) + sorted(vars(f).items(), key=lambda kv: kv[0])
+    for c in f.__closure__ or ():
+        try:
+            vals.append(c.cell_contents)
+        except ValueError:
+            pass
+    for v in vals:
+        if isinstance(v, (dict, list, set, bytearray)) or (isinstance(v, tuple) and any(isinstance(x, (dict, list, set)) for x in v)):
+            out += _digest_value(v, frozenset())
+    return out
+
+
 def state_digest() -> int:
-    """Digest of every module global and class attribute of the pdfminer package."""
+    """Digest of every module global, class attribute and function-held mutable value (default arguments, function
+    attributes, lru caches) of the pdfminer package."""
+    import types
+
     _freeze_symtabs()
     parts = []
+    seen_funcs: set = set()
+    fn_types = (types.FunctionType, classmethod, staticmethod, types.MethodType)
     for mn in sorted(m for m in sys.modules if m == "pdfminer" or m.startswith("pdfminer.")):
         mod = sys.modules[mn]
         if mod is None:
@@ -853,9 +933,19 @@ def state_digest() -> int:
                 for ak, av in sorted(vars(v).items()):
                     if ak.startswith("__"):
                         continue
+                    if isinstance(av, fn_types) or hasattr(av, "cache_info"):
+                        fs = _func_state(av, seen_funcs)
+                        if fs:
+                            parts.append(f"{mn}.{k}.{ak}()=".encode() + fs)
+                        continue
                     dg = _digest_value(av, frozenset())
                     if dg != b"-":
                         parts.append(f"{mn}.{k}.{ak}=".encode() + dg)
+                continue
+            if (isinstance(v, fn_types) and getattr(v, "__module__", None) == mn) or hasattr(v, "cache_info"):
+                fs = _func_state(v, seen_funcs)
+                if fs:
+                    parts.append(f"{mn}.{k}()=".encode() + fs)
                 continue
             dg = _digest_value(v, frozenset())
             if dg != b"-":
@@ -1167,6 +1257,51 @@ def shard_crypt(st, first_doc, tier):
         st.sample({"family": "crypt", "history": [list(first)], "then": [list(o) for o in CRYPT_OPS[:4]], "documents": CRYPT_DOCS})
 
 
+# ------------------------------------------------------------------------ abort shards
+TWIN_OPS = [("twin", k, c, sub) for k in KINDS for c in (True, False) for sub in (None, 0, 1)]
+
+
+def _abort(args):
+    """Child: one or two calls that are expected to die in the middle of the library, then the healthy twin (and the
+    whole-document operations of the pool) in grandchildren."""
+    prefix, follow = args
+    install_id("asc")
+    R = _REFS
+    out = []
+    for i, op in enumerate(prefix):
+        got = run_op(op)
+        out.append((tuple(prefix[:i]), op, rhash(got), None if got == R[op] else got, got[0]))
+
+    def leaf(op):
+        g = run_op(op)
+        return (tuple(prefix), op, rhash(g), None if g == R[op] else g, g[0])
+
+    return out + [fork_call(leaf, op) for op in follow]
+
+
+def shard_abort(st, site, tier):
+    a_ops = [("abort-" + site, k, c, None) for k in KINDS for c in (True, False)]
+    R = refs(a_ops + TWIN_OPS + [("abort-" + s2, "text", True, None) for s2 in ABORT_SITES])
+    follow = TWIN_OPS + (WHOLE_OPS if site == ABORT_SITES[0] or tier == "thorough" else [])
+    prefixes = [(op,) for op in a_ops]
+    if tier == "thorough":
+        prefixes += [(a_ops[0], ("abort-" + s2, "text", True, None)) for s2 in ABORT_SITES]
+    raised = 0
+    for prefix in prefixes:
+        res = fork_call(_abort, (prefix, follow))
+        raised += sum(1 for r in res[: len(prefix)] if r[4] != "ok")
+        for hist, op, rh, bad, status in res:
+            st.transitions += 1
+            st.states += 1
+            st.case(("abort", hist, op), nontrivial=len(hist) > 0, outcome=rh)
+            if bad is not None:
+                _record(st, hist, op, R[op], bad, "abort")
+        st.traces += len(follow)
+    st.add("abort_prefix_calls_that_raised", raised)
+    if site == ABORT_SITES[0]:
+        st.sample({"family": "abort", "history": [list(a_ops[0])], "status_of_history": R[a_ops[0]][0], "then": [list(o) for o in TWIN_OPS[:3]]})
+
+
 # -------------------------------------------------------------------------- api shards
 # One PDFDocument / PDFResourceManager / interpreter / device / converter, used for several calls in a row: every call
 # must answer what it answers as the first call on freshly made objects.
@@ -1403,6 +1538,7 @@ def shards(tier):
     out = [("ref",), ("bfs",), ("names",)]
     out += [("crypt", d) for d in CRYPT_DOCS]
     out += [("api", d) for d in API_DOCS]
+    out += [("abort", site) for site in ABORT_SITES]
     # interleaved iterators over two encrypted documents with different keys (same handler family, and across the RC4 families)
     out += [("il", CRYPT_DOCS[i], CRYPT_DOCS[i + 1]) for i in range(0, len(CRYPT_DOCS), 2)] + [("il", CRYPT_DOCS[0], CRYPT_DOCS[3]), ("il", CRYPT_DOCS[2], CRYPT_DOCS[5])]
     out += [("tree", op) for op in WHOLE_OPS]
@@ -1424,6 +1560,8 @@ def run_shard(shard, tier, st):
         shard_crypt(st, shard[1], tier)
     elif fam == "api":
         shard_api(st, shard[1], tier)
+    elif fam == "abort":
+        shard_abort(st, shard[1], tier)
     elif fam == "tree":
         shard_tree(st, shard[1], tier)
     elif fam == "il":
